@@ -15,6 +15,26 @@ CHECKS = {
   text="Exploration: each generated model is encoded by the SUT and read back by an independently written decoder (fields, truthful HdrLen/PayloadLen/UDP length, zero reserved bits, checksum over pseudo-header||message), decoded again by the SUT (equal model, no rest); encoding into a dirty buffer must equal encoding into a fresh Vec; canonical byte strings produced by the reference encoder must decode and re-encode identically; models that cannot be represented must be rejected (any accepted model has to pass all of the above).",
   note="Reference decoder written from the SCION header/SCMP diagrams; IPv4/IPv6 host semantics not interpreted; SCMP error models truncate their quote by design (checked as maximal prefix + re-encode stability); extension headers (HBH/E2E) are outside the SDK's model and not generated.",
   design="DESIGN.md §3 C03"),
+ "C04": dict(
+  technique="systematic enumeration of a family of small topologies (all ordered AS pairs) + proptest random topologies; reference control plane (beacons with an independent MAC chain) and a brute-force reference combinator over the combination rules; set equality of interface sequences (soundness+completeness), metadata vs dataplane decoded independently, MTU/expiry minima, metamorphic permutation/duplication of the inputs, every returned path walked by a reference MAC-verifying router",
+  text="Exploration with an exhaustively enumerated core: ~11 000 small topologies (1-2 ISDs x 1-2 cores x <=3 non-core ASes with every parent set x optional peering link at every pair x single/double links), every ordered AS pair; random topologies up to 3 ISDs / 14 ASes / 4 peering links with colliding interface numbers. combine() must return exactly the reference set of interface sequences, each once, loop-free, by non-decreasing link count, with truthful interface list, MTU and expiry, invariant under permutation/duplication of the segment lists; each returned path is delivered by the reference router along its interface list.",
+  note="Segments are those a control service returns for the request (non-core segments whose leaf is src or dst, all core segments); segments up to 6 ASes; tie order among equally long paths not asserted.",
+  design="DESIGN.md §3 C04"),
+ "C08": dict(
+  technique="differential against a reference decision procedure (independent header decoder + property text); exhaustive grids over address-type and path-type bytes and all truncation points; field-directed mutation; random datagrams",
+  text="For (datagram, tunnel peer, local address): the gateway's ingress outcome (policy check + SCMP reply construction exactly as in the receive loop, via the verif-hooks entry ingress_outcome) must equal the verdict of refmodel::wire::decode_header + the three documented policies (parses; source host type IPv4/IPv6 and equal to the peer; path type 0 or 1). Rejected datagrams yield at most one reply, which must be an SCMP ParameterProblem <= 1232 B <= send buffer, addressed to the peer, quoting the maximal prefix of the datagram, with a verifying RFC 1071 checksum. No panic.",
+  note="Either verdict is accepted (and counted) for v4 vs v4-mapped-v6 source/peer pairs, payload shorter than PayloadLen, trailing bytes and semantically inconsistent standard paths. Only the Forwarded arm of the receive loop is covered (WireGuard decapsulation and the dispatcher are outside).",
+  design="DESIGN.md §3 C08"),
+ "C09": dict(
+  technique="model-based stateful testing of the real SnapTunServer + real IdentityRegistry driven in-process by real ana_gotatun (WireGuard) clients under a virtual clock; exhaustive enumeration of short operation histories + proptest random histories (40% built around handshake / traffic / loss of authorisation / traffic / re-registration / traffic, with packet loss); end-to-end observation (what the server forwards, what it accepts for encryption, what a client can decrypt) judged by a plain authorisation model; exhaustive small-domain check of the strict expiry boundary on IdentityRegistry alone with synthetic Instants",
+  text="Exploration with exhaustively enumerated cores. Histories over 2 token keys x 3 x25519 identities x 2 client socket addresses of {register(key,id,lifetime), clock advance, purge expired, handshake(id,addr), data in, data out, timer tick, duplicate delivery, data through the other address, packet loss after the handshake response / of the server's immediate output}: all histories of length <=3 and (thorough) =4 over a 29-symbol alphabet, all of length 5 over an 18-symbol reduced alphabet (thorough; arithmetic slices in quick), random histories up to length 40. After every operation: Forwarded => the client that encrypted exactly these bytes is, per the model, registered and unexpired now, the session data returned is the one registered for that identity and that identity completed a handshake over that address; handle_outgoing Some => same for the identity of the returned session; any client decrypting a non-empty payload => authorised now, payload was handed to the server for that address and not reported dropped; has_authorization == model for all identities (both directions), never more authorised identities than keys. Registry alone: all histories of <=3 (quick) / <=4 (thorough) operations over register(dt,key,id,lifetime 0..2)/purge(dt) in units of 1 s and 1 ns, probed at now..now+4 for every identity (exact strict boundary expiry > now).",
+  note="Single-threaded: concurrency of registry updates vs. the packet path is not explored. SnapTunServer and ana_gotatun read the real clock: composed comparisons closer than 2 s to an expiry are skipped and counted (guard-band-skip), cases slower than 1 s real time are excluded and counted (0 observed); WireGuard timers (rekey, keepalive, 540 s tunnel expiry) therefore never fire, update_timers is exercised but inert; cookie/rate-limit path disabled. Liveness (authorised traffic flows) is measured by labels and generator-health floors, not demanded. IdentityRegistry's own SessionData is (), so attribution is checked through per-identity session tags supplied by the ClockedAuthz wrapper.",
+  design="DESIGN.md §3 C09"),
+ "C10": dict(
+  technique="systematic single-mutation enumeration around harness-built valid v0/v1 JWTs (own base64 + ed25519-dalek signing; incl. all 512 signature bit flips, every header/payload bit, segment splicing, alg=none and HS256-with-public-key confusion, kid x key matrix, base64 spellings) + proptest random multi-mutations and random strings; differential against a reference acceptance predicate over the token string written from the statement; observed at SnapTokenVerifier::verify, at the AuthMiddleware of build_router via tower oneshot (401 vs not) and at a recording identity registry (granted lifetime <= exp - time before the request); static-key and static+JWKS (store fed from an in-process loopback endpoint) configurations",
+  text="Exploration with an exhaustively enumerated core: 8 765 systematic mutations around 7 valid tokens are all judged; 100 000 (quick) / 3 000 000 (thorough) random mutation combinations and 20 000 / 500 000 random strings extend beyond it. verify Ok <=> reference accepts; 401 <=> reference refuses; registrations only for accepted tokens with lifetime bounded by the remaining token lifetime.",
+  note="The verifier reads the wall clock itself: generated times stay >= 2 s away from now-60/now+60 and a token whose verdict differs between the clock readings before/after the call is not judged (never happened). Ed25519 is assumed (bit flips are enumerated for 4 tokens, sampled otherwise). Not judged: other base64 spellings of acceptable tokens, non-string optional header parameters, ill-typed registered claims outside the version's documented structure, v1 aud as array, non-hyphenated UUID forms. JWKS refresh/rotation/fetch failures, the scion-sdk-token-validator Validator<C> path and the lower bound of the granted lifetime are out of scope.",
+  design="DESIGN.md §3 C10"),
  "C11": dict(
   technique="exhaustive enumeration of small segment shapes/directions + proptest random authentic paths from an independent AES-CMAC beacon chain with per-AS keys (forward walk, reversal, walk back, SegID == reference beta at every hop); single-bit tampering must be detected by the owning AS; stateful exploration of ingress/egress step sequences on arbitrary parseable paths with atomicity/monotonicity invariants",
   text="Exploration with exhaustive cores: all combinations of 1-3 segments x 2-3 hops x travel directions (and the peering variant) with fresh keys, every class of authenticated-bit flip on them; random paths up to 21 hops per segment with arbitrary cuts (shortcut/on-path shapes); random step sequences (ingress internal/external, egress; no validator / MAC validator / always-failing validator) over all small segment-length shapes and pointer values: AdvanceError => bytes identical, success => pointers monotone and inside the path, egress strictly advances, the ingress+egress router loop terminates within #hop-fields AS steps.",
@@ -35,6 +55,21 @@ CHECKS = {
   text="Exploration with exhaustively enumerated cores: all ACLs with <=3 entries over 6 predicates and all hop-pattern ASTs of depth<=2 (depth 3 in thorough) over 3 predicates plus all top-level sequences of <=3 depth-1 items are evaluated on ALL hop sequences up to length 4/5 over 4 concrete hops and compared with the denotational semantics; random deeper instances and parser soup extend beyond the bound.",
   note="Hops carry no wildcard ISD/AS (0); empty hop sequences are not generated; patterns are built through parse() (private AST); stacked repetition operators are limited to 12 in parser soup because SUT matching cost grows exponentially with stacked '*' (DESIGN, C16 limits) - a hang would be reported as inconclusive, not as a violation.",
   design="DESIGN.md §3 C16"),
+ "C17": dict(
+  technique="exhaustive enumeration of all delivery orders of <=2 packets x <=3 frames with one optional drop/duplicate, and of all frame sequences of length <=4 (5) over a 13-frame hostile alphabet + proptest schedules (step machine: interleaving, permutation, duplication also after completion, loss) over frames cut by the real Fragmenter and hostile frame sequences (generated structures, byte-code decoded from raw bytes); oracles: byte-identity/at-most-once/must-emit against a slot-occupancy model and the documented eviction policy, shadow-map coverage of every emitted byte, counting global allocator",
+  text="Exploration with exhaustive cores. Honest sender: boundary-directed sizes 1..65535 x MTUs {272,273,1400,9000} x Q in {1,2,3,5,8}, up to Q+2 packets in flight; every emitted packet must be byte-identical to the sent packet with that stream offset, only after all its frames were delivered and at most once; it must be emitted by the call that delivers its last missing frame whenever never more than Q packets occupied slots (policy-free) and whenever the documented slot policy did not reclaim its slot. Arbitrary frames: every byte of an emitted packet must have been received at that position in a frame of the same stream offset and the length must be announced by a received LAST frame of it; no panic; net allocated bytes constant over ~10^4-10^5 hostile frames per case.",
+  note="Fragmenter frames are checked against the documented wire format; the completeness claim after evictions relies on the slot policy described in the module docs; stream-offset wrap-around and queue count 0 are not generated; at-most-once is asserted for honest senders only; memory is measured as net heap bytes of the calling thread (one-time prometheus label children tolerated).",
+  design="DESIGN.md §3 C17"),
+ "C18": dict(
+  technique="proptest over signed path segments (1-5 AS entries with peers, 2-3 ECDSA P-256 keys, key ids; built through the SDK's signing API and by an independent reference signer) presented after a tampering operator, judged by an explicit byte-level model of the signature chain; exhaustive enumeration of every single-bit flip of small segments incl. a real control-service segment; independent SHA-2/p256 verification of what the API signed; round trip + structural differential for the RPC conversions of segments, segment pages and daemon paths; byte-mutated encodings for totality",
+  text="Exploration with an exhaustive core: every single-bit flip in segment info / header_and_body / signature of every entry of a fixed set of small segments (the real segment of the repository's test plus seed-drawn segments of 1-3 entries, 1-5 in thorough), through the RPC form and the serde form, and 8 sampled operators per random segment (bit flips, multi-flips, swap, drop-first/middle, truncate, inserted/appended copy, foreign entry, key substitution / missing key, associated-data length lie, forged entry, (r,n-s), alternative DER / info encodings): the entry at position p must validate IFF an authentic record has exactly its bytes, was signed over exactly info || entries 0..p as presented and the verifier resolves the signer's key. SignedMessage sign/validate/decode_validated are checked alone with chunked associated data and three digests. RPC: from_rpc(to_rpc(x)) == x for segments, pages and paths with canonical rich metadata; structural arbitrary PathSegment / SegmentsResponse / daemon Path messages (beyond-16-bit values, missing sub-messages, inconsistent vector lengths, negative times, junk) and byte-mutated encodings give Ok or Err without panic, accepted messages are represented without silent truncation, messages of the documented shape are accepted with every datum where daemon.proto puts it, and the accepted value survives to_rpc -> from_rpc.",
+  note="ECDSA/SHA-2 primitives assumed; (r,n-s) is accepted by the verifier (p256 does not enforce low-S) and non-canonical segment-info encodings of the same value validate (info is re-encoded on conversion) - both observed and counted, not claimed; known findings (open): a byte-identical copy of an earlier entry validates at a later position; ScionPath::to_rpc loses latency/bandwidth/link type/internal hops; extensions, unsigned extensions, pagination token and EPIC authenticators are documented as unsupported and not generated; entries of a segment carry distinct ASes.",
+  design="DESIGN.md §3 C18"),
+ "C19": dict(
+  technique="proptest structural mutation of valid segment sets (20 mutation operators) and random segment soup; validity predicates on every returned path (parses, re-encodes, independent decoder, metadata consistent, expiry) and a metamorphic relation (junk segments never remove a path of the valid set); panics are violations",
+  text="Exploration: valid segment sets from generated topologies with 1-5 structural mutations (deleted/duplicated/reordered entries, zeroed or aliased interface ids, repeated ASes, cross-wired peer entries, empty/single-entry/64-80 entry segments, out-of-range MTUs, core<->non-core confusion, foreign ISD-AS) and up to 40 soup segments; combine() must return without panicking, every returned path must be self-consistent, and paths obtainable from the valid segments must survive the addition of the junk.",
+  note="The polynomial-time clause is only checked as completion under the watchdog (no wall-clock verdicts); PathFetcherImpl over a mock SegmentFetcher is not driven here.",
+  design="DESIGN.md §3 C19"),
 }
 NOT_YET = "check not built yet (work in progress)"
 
